@@ -23,6 +23,8 @@ import (
 	"strings"
 	"sync"
 	"testing"
+	"unicode"
+	"unicode/utf8"
 
 	"github.com/junegunn/fzf/src/algo"
 	"github.com/junegunn/fzf/src/util"
@@ -56,6 +58,59 @@ type vfMenu struct {
 	WTerms [][]string   `json:"wterms"`
 	Ph     [][][]string `json:"ph"`
 	Exprs  [][]string   `json:"exprs"`
+	Chars  map[string]struct {
+		Blank bool `json:"blank"`
+		Space bool `json:"space"`
+		Bytes int  `json:"bytes"`
+		Width int  `json:"width"`
+	} `json:"chars"`
+}
+
+// vfSyms is verifSyms for text that came out of the code under test: a character outside the symbol table (e.g. the
+// halves of a multi-byte character that a field boundary went through) becomes a symbol no specification text
+// contains, so the case is reported as a mismatch instead of killing the harness.
+func vfSyms(s string) []string {
+	out := []string{}
+	for i, r := range s {
+		if r == utf8.RuneError && s[i] != 0xEF { // a byte that is no UTF-8 sequence
+			out = append(out, fmt.Sprintf("?byte-%02X", s[i]))
+		} else if k, ok := verifSymOf[r]; ok {
+			out = append(out, k)
+		} else {
+			out = append(out, fmt.Sprintf("?U+%04X", r))
+		}
+	}
+	return out
+}
+
+// vfCheckChars: the symbols of the C10 alphabets denote the characters the specification says they are (which of
+// them are TAB / SPACE, which are white space for unicode.IsSpace, how many bytes the UTF-8 encoding has, which are
+// wide).  A disagreement is an error of the tables (spec/FzfChars.tla, harness/shared/chars.go), not of fzf.
+func vfCheckChars(t *testing.T, menu *vfMenu) {
+	if len(menu.Chars) == 0 {
+		t.Fatal("menu without character table")
+	}
+	for sym, e := range menu.Chars {
+		r, ok := verifSym[sym]
+		if !ok {
+			t.Fatalf("symbol %q missing in harness/shared/chars.go", sym)
+		}
+		if (r == '\t' || r == ' ') != e.Blank {
+			t.Fatalf("symbol %q (%U): blank = %v in the specification", sym, r, e.Blank)
+		}
+		if unicode.IsSpace(r) != e.Space {
+			t.Fatalf("symbol %q (%U): unicode.IsSpace = %v, specification %v", sym, r, !e.Space, e.Space)
+		}
+		if utf8.RuneLen(r) != e.Bytes {
+			t.Fatalf("symbol %q (%U): %d bytes, specification %d", sym, r, utf8.RuneLen(r), e.Bytes)
+		}
+		if w := util.StringWidth(string(r)); (w == 2) != (e.Width == 2) {
+			t.Fatalf("symbol %q (%U): width %d, specification %d", sym, r, w, e.Width)
+		}
+		if verifText(vfSyms(string(r))) != string(r) {
+			t.Fatalf("symbol %q (%U) does not round-trip", sym, r)
+		}
+	}
 }
 
 type vfTok struct {
@@ -76,6 +131,7 @@ func vfLoadMenu(t *testing.T) *vfMenu {
 	if err := json.Unmarshal(b, &m); err != nil {
 		t.Fatal(err)
 	}
+	vfCheckChars(t, &m)
 	return &m
 }
 
@@ -189,7 +245,7 @@ func vfQueryFlags(kind string) []string {
 func vfToks(tokens []Token) []vfTok {
 	out := make([]vfTok, len(tokens))
 	for i, tk := range tokens {
-		out[i] = vfTok{verifSyms(tk.text.ToString()), int(tk.prefixLength)}
+		out[i] = vfTok{vfSyms(tk.text.ToString()), int(tk.prefixLength)}
 	}
 	return out
 }
@@ -388,9 +444,9 @@ func TestVerifFieldsLine(t *testing.T) {
 		for i, f := range fns {
 			it, rawText := vfWithNthItem(line, del, f.with, menu.Index)
 			items[i] = it
-			got.Raw = append(got.Raw, verifSyms(rawText))
-			got.Shown = append(got.Shown, verifSyms(it.text.ToString()))
-			got.Acc = append(got.Acc, verifSyms(vfPlainItem(line, menu.Index).acceptNth(false, del, f.accept)))
+			got.Raw = append(got.Raw, vfSyms(rawText))
+			got.Shown = append(got.Shown, vfSyms(it.text.ToString()))
+			got.Acc = append(got.Acc, vfSyms(vfPlainItem(line, menu.Index).acceptNth(false, del, f.accept)))
 		}
 		nWN, nWK, nWT := len(menu.WNth), len(menu.WKinds), len(menu.WTerms)
 		for s := range fns {
@@ -413,11 +469,11 @@ func TestVerifFieldsLine(t *testing.T) {
 		item := vfPlainItem(line, 0)
 		for _, nth := range menu.Ph {
 			e := vfNthArg(nth)
-			got.Ph = append(got.Ph, verifSyms(vfPlaceholder("{r"+e+"}", del, "", item)))
-			got.Phs = append(got.Phs, verifSyms(vfPlaceholder("{rs"+e+"}", del, "", item)))
-			got.Phq = append(got.Phq, verifSyms(vfPlaceholder("{"+e+"}", del, "", item)))
-			got.QPh = append(got.QPh, verifSyms(vfPlaceholder("{q:"+e+"}", del, line, nil)))
-			got.QPhs = append(got.QPhs, verifSyms(vfPlaceholder("{q:s"+e+"}", del, line, nil)))
+			got.Ph = append(got.Ph, vfSyms(vfPlaceholder("{r"+e+"}", del, "", item)))
+			got.Phs = append(got.Phs, vfSyms(vfPlaceholder("{rs"+e+"}", del, "", item)))
+			got.Phq = append(got.Phq, vfSyms(vfPlaceholder("{"+e+"}", del, "", item)))
+			got.QPh = append(got.QPh, vfSyms(vfPlaceholder("{q:"+e+"}", del, line, nil)))
+			got.QPhs = append(got.QPhs, vfSyms(vfPlaceholder("{q:s"+e+"}", del, line, nil)))
 		}
 		out.Put(map[string]interface{}{"id": id, "got": got, "und": und})
 		id++
@@ -455,7 +511,7 @@ func TestVerifFieldsSel(t *testing.T) {
 			if text == "" {
 				p = 0 // the offset of an empty selection cannot be observed
 			}
-			sel[i] = []interface{}{1, verifSyms(text), p}
+			sel[i] = []interface{}{1, vfSyms(text), p}
 		}
 		out.Put(map[string]interface{}{"id": id, "got": map[string]interface{}{"n": len(tokens), "sel": sel}})
 		id++
@@ -656,7 +712,7 @@ func TestVerifFieldsRecord(t *testing.T) {
 			rec["ok"], rec["t"], rec["p"] = ok, []string{}, 0
 			if ok {
 				tr := Transform(Tokenize(line, del), []Range{r})
-				rec["t"], rec["p"] = verifSyms(tr[0].text.ToString()), int(tr[0].prefixLength)
+				rec["t"], rec["p"] = vfSyms(tr[0].text.ToString()), int(tr[0].prefixLength)
 			}
 		case "match":
 			p, err := m.pattern(c.D, del, vfNthArg(c.Nth), c.Kind, verifText(c.Term))
@@ -673,15 +729,15 @@ func TestVerifFieldsRecord(t *testing.T) {
 				return err
 			}
 			it, rawText := vfWithNthItem(line, del, opts.WithNth(del), c.Index)
-			rec["raw"] = verifSyms(rawText)
-			rec["shown"] = verifSyms(it.text.ToString())
-			rec["acc"] = verifSyms(vfPlainItem(line, c.Index).acceptNth(false, del, opts.AcceptNth(del)))
+			rec["raw"] = vfSyms(rawText)
+			rec["shown"] = vfSyms(it.text.ToString())
+			rec["acc"] = vfSyms(vfPlainItem(line, c.Index).acceptNth(false, del, opts.AcceptNth(del)))
 		case "ph":
 			flags := "r"
 			if c.Keep {
 				flags = "rs"
 			}
-			rec["out"] = verifSyms(vfPlaceholder("{"+flags+vfNthArg(c.Nth)+"}", del, "", vfPlainItem(line, 0)))
+			rec["out"] = vfSyms(vfPlaceholder("{"+flags+vfNthArg(c.Nth)+"}", del, "", vfPlainItem(line, 0)))
 		default:
 			return fmt.Errorf("unknown op %q", c.Op)
 		}
